@@ -19,7 +19,7 @@ RULE = (
 )
 ASSUMPTIONS = [
     "the invariant is evaluated through the public .parent/.children of every object reachable from the universe",
-    "hooks only raise (they never mutate the tree themselves)",
+    "hooks only raise (they never mutate the tree themselves); every single fault position is exercised with an Exception and with an interrupt-like BaseException",
     "any exception class is acceptable for this property; only the link invariant and 'no internal assertion fires' are judged",
 ]
 CLASS_SPECS = [
@@ -143,6 +143,15 @@ def check_case(case, acc):
 ENUM_SPECS = ["HNM", "HLM", ["HNM", "HLM"], "HEqNM", "HEqLM", ["HNode", "HSymlinkU"]]
 
 
+def _with_interrupts(cases):
+    """Every single-fault case once more with an interrupt-like BaseException (not an Exception) raised at the same hook call."""
+    for case in cases:
+        yield case
+        plan = case["steps"][0].get("plan") or {}
+        if list(plan) == ["once"] and len(plan["once"]) == 1:
+            yield dict(case, steps=[{"op": case["steps"][0]["op"], "plan": {"base": plan["once"]}}])
+
+
 def plan(tier, seed):
     tasks = []
     nshards = 16
@@ -191,7 +200,7 @@ def run_task(task, acc):
         spec = ENUM_SPECS[task["spec"]]
         maxlen = None if task["n"] <= 3 else 3
         cases = mut.enum_fault_cases(spec, task["n"], task["index"], task["count"], fault_hooks=mut.HOOKS, pairs=task["pairs"], invalid=True, maxlen=maxlen, routes=task["routes"])
-        acc.run_enum(check_case, (dict(c, assertions=task["assertions"]) for c in cases))
+        acc.run_enum(check_case, (dict(c, assertions=task["assertions"]) for c in _with_interrupts(cases)))
     else:
         strat = mut.history_strategy(max_nodes=7, max_steps=30, faults="all", invalid=True, class_specs=CLASS_SPECS)
         acc.run_hypothesis(check_case, strat.map(lambda c: dict(c, assertions=task["assertions"])), task["examples"], task["seed"])
